@@ -1,3 +1,4 @@
+pub mod cfg;
 pub mod qmatch;
 pub mod text;
 pub mod xtree;
